@@ -68,6 +68,17 @@ theorem equivB_is_map_equality (a b : Point) :
 theorem delete_spec (df dt : List String) (p : Point) : (deletePoint df dt p).equivB (specDelete df dt p) = true :=
   Main.delete_spec df dt p
 
+/-- default on a batch edge: the GROUP tags are defaulted like the tags of a point (so the batch may change its group: the
+dimensions of a begin message are the keys of its tags), and so is every point. -/
+theorem default_batch_spec (cf : Fields) (ct : Tags) (hf : (akeys cf).Nodup) (ht : (akeys ct).Nodup) (b : Batch) :
+    (defaultBatch cf ct b).equivB (specDefaultBatch cf ct b) = true :=
+  defaultBatch_spec cf ct hf ht b
+
+/-- delete on a batch edge: deleted tags leave the group tags (and with them the dimensions); points lose the listed keys. -/
+theorem delete_batch_spec (df dt : List String) (b : Batch) :
+    (deleteBatch df dt b).equivB (specDeleteBatch df dt b) = true :=
+  deleteBatch_spec df dt b
+
 /-- groupBy (stream): the new dimensions are the sorted listed tags — or all tags of the point under `*` — minus the
 excluded ones (the code sorts first and filters then; the documented function filters first), byMeasurement is sticky. -/
 theorem groupBy_spec (c : GroupByCfg) (p : Point) : groupByPoint c p = specGroupBy c p :=
@@ -76,6 +87,43 @@ theorem groupBy_spec (c : GroupByCfg) (p : Point) : groupByPoint c p = specGroup
 /-- … and they are sorted, whatever order they were listed in. -/
 theorem groupBy_dims_sorted (c : GroupByCfg) (tags : Tags) : (gbTagNames c tags).Pairwise (· ≤ ·) :=
   gbTagNames_sorted c tags
+
+/-- groupBy (batch), one point: it is appended to the group of its id (name of the current batch when grouped by
+measurement + its values of the documented dimensions); a new group gets name / measurement flag / end time of the current
+batch and exactly the dimension tags; no other group and nothing else of the state changes. -/
+theorem groupBy_batch_point (c : GroupByCfg) (s : GbSt) (p : BPoint) :
+    aget (gbBatchPoint c s p).groups (gbId c s p) =
+      some (match aget s.groups (gbId c s p) with
+        | some g => { g with points := g.points ++ [p] }
+        | none => { name := s.name, tags := restrictTags p.tags (specGroupByDims c p.tags), byName := s.byName, tmax := s.tmax, points := [p] }) ∧
+    (∀ id, id ≠ gbId c s p → aget (gbBatchPoint c s p).groups id = aget s.groups id) ∧
+    (gbBatchPoint c s p).lastTime = s.lastTime ∧ (gbBatchPoint c s p).name = s.name ∧
+    (gbBatchPoint c s p).byName = s.byName ∧ (gbBatchPoint c s p).tmax = s.tmax :=
+  gbBatchPoint_spec c s p
+
+/-- groupBy (batch), the points of a batch: every group ends up with what it held followed by exactly the points of its
+id, in arrival order — nothing lost, nothing in two groups. -/
+theorem groupBy_batch_regroups (c : GroupByCfg) (pts : List BPoint) (s : GbSt) (id : String) :
+    groupPoints (pts.foldl (gbBatchPoint c) s).groups id = groupPoints s.groups id ++ pts.filter (fun p => gbId c s p = id) :=
+  gb_fold_points c pts s id
+
+/-- groupBy (batch), emission: exactly when the end time of the incoming batch differs from the last one seen, ALL
+buffered groups are emitted — headers untouched, points a permutation of the buffered ones and sorted by time — and the
+buffer restarts empty with the incoming batch; otherwise nothing is emitted and the batch joins the buffered groups. -/
+theorem groupBy_batch_emits_on_time_change (c : GroupByCfg) (s : GbSt) (b : Batch) :
+    (b.tmax ≠ s.lastTime →
+      (gbBatch c s b).2.length = s.groups.length ∧
+      (∀ i (h : i < s.groups.length),
+        ∃ o, (gbBatch c s b).2[i]? = some o ∧ o.name = (s.groups[i]).2.name ∧ o.tags = (s.groups[i]).2.tags ∧
+          o.byName = (s.groups[i]).2.byName ∧ o.tmax = (s.groups[i]).2.tmax ∧
+          o.points.Perm (s.groups[i]).2.points ∧ o.points.Pairwise (fun a b => a.time ≤ b.time)) ∧
+      (gbBatch c s b).1 = b.points.foldl (gbBatchPoint c)
+        { lastTime := b.tmax, name := b.name, byName := b.byName || c.byName, tmax := b.tmax, groups := [] }) ∧
+    (b.tmax = s.lastTime →
+      (gbBatch c s b).2 = [] ∧
+      (gbBatch c s b).1 = b.points.foldl (gbBatchPoint c)
+        { s with name := b.name, byName := b.byName || c.byName, tmax := b.tmax }) :=
+  gbBatch_emit c s b
 
 /-- shift moves the time and nothing else. -/
 theorem shift_spec (d : Int) (p : Point) : shiftPoint d p = specShift d p := rfl
@@ -167,6 +215,11 @@ example :
       (specFlatten c ps).map (·.fields) = [[("80.v", .int 1), ("443.v", .int 2)]] := by
   decide
 
+/-- **flatten on a batch edge**: the points are split into maximal runs of equal rounded time; every run becomes one point
+(group tags, rounded time, documented fields); a run without any field is dropped unless it is the last of the batch. -/
+theorem flatten_batch_spec (c : FlattenCfg) (b : Batch) : flattenBatch c b = specFlattenBatch c b :=
+  flattenBatch_eq c b
+
 /-- Counterexample (the defect repaired by add6dbc): in snapshot ef0888e a point that has the first `on` tag but not the
 second leaves its tag value in the shared prefix buffer; the next point's field comes out as `ab.80.v` instead of
 `b.80.v` (replayed on the real code by corpus/C10/flatten-missing-later-tag.ops). -/
@@ -192,6 +245,31 @@ member s satisfies lambda s. (The converse fails: next theorem.) -/
 theorem combine_greedy_sound {α : Type} (m : Nat → α → Bool) (l s : Nat) (rest sel : List α)
     (h : assign m l s rest = some sel) : sel ∈ assignments m l s rest :=
   Main.assign_mem_assignments m l s rest sel h
+
+/-- The candidate sets combine walks through are exactly the k-element sublists of the bucket (by position, in order):
+no point twice in a combination, no combination twice. -/
+theorem combine_candidates_are_sublists {α : Type} (k : Nat) (l s : List α) : s ∈ choose k l ↔ s.Sublist l ∧ s.length = k :=
+  mem_choose k l s
+
+/-- **combine on a stream** (any order of times; the number of candidate sets within `.max()`): the buffer of a group is
+the open bucket of its history — the trailing run of points with the rounded time of the last one; the first point with
+another rounded time closes it, the combinations of the closed bucket are emitted then, the last bucket stays buffered. -/
+theorem combine_stream_bucketing (c : CombineCfg) (ps : List Point) (hfit : ∀ n, n ≤ ps.length → combFits c n) :
+    combineStream c ps = perGroup (specCombinePoint c) [] ps :=
+  combineStream_eq c ps hfit
+
+/-- **combine on a batch edge**: the combinations of every maximal run of equal rounded time, run by run. -/
+theorem combine_batch_bucketing (c : CombineCfg) (b : Batch) (hfit : ∀ n, n ≤ b.points.length → combFits c n) :
+    combineBatch c b =
+      (buckets c.tol b.points).flatMap (fun bk => (combineBucket c b.name b.dims b.byName (bk.map (rnd c.tol))).getD []) :=
+  combineBatch_eq c b hfit
+
+/-- non-vacuity: pairs, three points at one time then one later — the default max is far away, one bucket is emitted -/
+example :
+    let c : CombineCfg := { exprs := [.lit (.bool true), .lit (.bool true)], names := ["A", "B"], delim := ".", tol := 0, max := 1000000 }
+    let mk := fun (v : Int) (t : Int) => ({ name := "m", tags := [], fields := [("v", .int v)], time := t } : Point)
+    (∀ n, n ≤ 4 → combCount n c.exprs.length ≤ c.max) ∧ (combineStream c [mk 1 0, mk 2 0, mk 3 0, mk 4 1]).length = 3 := by
+  decide
 
 /-- Recorded finding `combine-greedy-assignment`: with lambdas (TRUE, "h" == 'a') the pair {h=a, h=b} admits the
 assignment (b ↦ TRUE, a ↦ "h"=='a') but the greedy walk gives `a` to the first lambda and finds nobody for the second:
